@@ -1,4 +1,4 @@
 SPECIFICATION Spec
-CONSTANTS MaxUP = 3  MaxHP = 3  MaxVia = 3  MaxVP = 3
+CONSTANTS MaxUP = 3  MaxHP = 3  MaxVia = 2  MaxVP = 2
 INVARIANTS Laws
 CONSTRAINT Emit
